@@ -972,6 +972,10 @@ def run(prog, rep, tier):
     rep.assumptions += ['h5py stores and returns numerical payloads faithfully (not decided)',
                         'method resolution by statically computed MRO; super() resolved on the '
                         'defining class']
+    from ..flow import check_dead_computations
+    rep.rule('VALUE-dead', 'no result of a call is bound to a local that is never read (reaching '
+             'definitions)')
+    check_dead_computations(prog, rep, ['tenpy/tools/hdf5_io.py'])
     return rep.finish(
         level='other',
         explanation='Writer/reader agreement for every class offering HDF5 export (%d classes '
